@@ -34,7 +34,7 @@ CONSTANTS
   SwapAmounts = {1, 3, 7, 10, 20}
   MaxRej = 5
   Sample = TRUE
-  InitIbc = 3
+  InitIbc = 20
   DeployExtra = {"stake", "ibc/x1", "nope"}
   HookVariants = {"unbound", "topics2", "otherevent", "badto", "baddata"}
   UpgradeTo = {"u1", "x1", "evrevert"}
